@@ -72,7 +72,7 @@ class SA(generic.Desc):
         return bool(set(v.get("seen", [])) & {"ExpireNext", "ExpireEnd"})
 
     def required_tags(self, prop):
-        return {"ExpireNext", "ExpireEnd", "Enter", "Continue", "UserNext", "UserDone", "Idle", "Enable"}
+        return {"ExpireNext", "ExpireEnd", "Enter", "Continue", "UserNext", "UserDone", "Idle", "Enable", "Sibling", "Assign"}
 
 
 def check(prop, tier):
